@@ -10,7 +10,7 @@ correspondence : Drift(tracking_method="bmadx").track on 1-3 paraxial particles 
                  coordinates of every particle + returned energy, tactic Bmadx/QuadXTac.v (staged `interval`)
 oracles (implementation alone): autograd Jacobian at the design orbit vs transfer_map (Drift, Quadrupole, Dipole),
                  track(L1);track(L2) vs track(L1+L2) (Drift, Quadrupole incl. num_steps, Dipole), straight-line drift in
-                 50-digit arithmetic, TDC(V=0) vs Drift(bmadx).
+                 50-digit arithmetic, TDC(V=0) vs Drift(bmadx), on-axis quadrupole = drift, momentum scaling of the quadrupole.
 Known NaN configurations (finding F8 of C09: Bmad-X Dipole angle=0, Quadrupole/Dipole length=0) are not generated.
 """
 import json
@@ -282,7 +282,7 @@ def run_case(run, case):
         out = make(spec).track(beam(parts, E0)).particles
         if not bool(torch.isfinite(out).all()):
             return {"what": "non-finite output of Quadrupole._track_bmadx", "observed": out.tolist()}
-        return flow_oracle(spec, E0, parts, case["frac"]) or onaxis_oracle(spec, E0, parts)
+        return flow_oracle(spec, E0, parts, case["frac"]) or onaxis_oracle(spec, E0, parts) or chromatic_oracle(spec, E0, parts)
     f = jacobian_oracle(spec, E0)
     if f:
         return f
@@ -293,7 +293,7 @@ def run_case(run, case):
         out = make(spec).track(beam(parts, E0)).particles.tolist()
         return straight_line_oracle(spec, E0, parts, out)
     if spec["cls"] == "Quadrupole":
-        return onaxis_oracle(spec, E0, parts)
+        return onaxis_oracle(spec, E0, parts) or chromatic_oracle(spec, E0, parts)
     return None
 
 
@@ -314,6 +314,30 @@ def onaxis_oracle(spec, E0, parts):
         if dev is not None:
             return {"what": "on-axis particle: Bmad-X quadrupole differs from Bmad-X drift of the same length", "max_dev": dev, "energy": E,
                     "particles": ps, "quadrupole": a.tolist(), "drift": b.tolist()}
+    return None
+
+
+def chromatic_oracle(spec, E0, parts):
+    """Momentum scaling of the quadrupole (from the Coq model: the step depends on k1 and pz only through k1/(1+pz), and px enters as px/(1+pz)):
+    a particle with relative momentum P = 1+pz in a quadrupole of strength k1 has the same x, y (and px/P, py/P) as the on-momentum particle
+    (x, px/P, y, py/P) in a quadrupole of strength k1/P -- for every tilt, misalignment and number of steps."""
+    import copy
+    m = m_eV()
+    p0c = math.sqrt(E0 * E0 - m * m)
+    for i, p in enumerate(parts):
+        if p[5] == 0.0:
+            continue
+        en = E0 + p[5] * p0c
+        P = math.sqrt(en * en - m * m) / p0c
+        a = make(spec).track(beam([p], E0)).particles[0]
+        q = copy.deepcopy(spec)
+        q["kw"]["k1"] = spec["kw"]["k1"] / P
+        b = make(q).track(beam([[p[0], p[1] / P, p[2], p[3] / P, 0.0, 0.0, 1.0]], E0)).particles[0]
+        exp = torch.stack([b[0], b[1] * P, b[2], b[3] * P])
+        dev = close_parts(a[:4], exp, 1e-9, 1e-13)
+        if dev is not None:
+            return {"what": "momentum scaling of the Bmad-X quadrupole violated: track(k1; x,px,y,py,delta) != scaled track(k1/P; x,px/P,y,py/P,0)", "particle": i,
+                    "P": P, "max_dev": dev, "off_momentum": a.tolist(), "scaled_on_momentum": b.tolist()}
     return None
 
 
